@@ -354,6 +354,7 @@ func (c *FnCtx) runGhostAt(bc *blockCtx, a Anchor) {
 		}
 		if as.Assume {
 			c.sc.assert(sImp(bc.reach, t))
+			c.assumed["input invariant @"+as.C.Label+" ("+shortFuncName(c.top.fn, c.eng.modPath)+"): "+as.C.Text] = true
 			continue
 		}
 		if c.dry > 0 {
